@@ -449,3 +449,289 @@ theorem optLoop_length_le (try_ : Cmd → Cmd → Step) :
           have := ih done' (d :: m :: rest); simp only [List.length_cons] at this ⊢; omega
 
 end SFV
+
+/-! ### lawful interpretations: the family laws imply that the loop body is sound -/
+namespace SFV
+
+/-- sign of the first parameter: the `dagger` flag negates it -/
+def sg (d : Bool) : Rat := if d then -1 else 1
+
+theorem Par.val_neg (θ : Nat → Rat) (p : Par) : p.neg.val θ = - p.val θ := by
+  cases p <;> simp [Par.neg, Par.val]
+
+theorem Par.val_add (θ : Nat → Rat) : ∀ {p q r : Par}, Par.add p q = some r →
+    r.val θ = p.val θ + q.val θ
+  | .num x, .num y, r, h => by
+    simp only [Par.add, Option.some.injEq] at h
+    subst h
+    simp [Par.val]
+  | .meas m k, .meas m' k', r, h => by
+    simp only [Par.add] at h
+    split at h
+    · rename_i hm
+      subst hm
+      split at h
+      · rename_i hk
+        simp only [Option.some.injEq] at h
+        subst h
+        simp only [Par.val]
+        rw [← add_mul, hk, zero_mul]
+      · simp only [Option.some.injEq] at h
+        subst h
+        simp only [Par.val]
+        ring
+    · cases h
+  | .num _, .meas _ _, r, h => by simp [Par.add] at h
+  | .meas _ _, .num _, r, h => by simp [Par.add] at h
+
+theorem signed_sum (θ : Nat → Rat) (da db : Bool) (pa pb p0 : Par)
+    (h : Par.add pa (if da = db then pb else pb.neg) = some p0) :
+    sg da * p0.val θ = sg da * pa.val θ + sg db * pb.val θ := by
+  rw [Par.val_add θ h]
+  cases da <;> cases db <;> simp [sg, Par.val_neg] <;> ring
+
+theorem parsNums_map_num (U : List Rat) : parsNums (U.map Par.num) = some U := by
+  induction U with
+  | nil => rfl
+  | cons x xs ih => simp [parsNums, ih]
+
+/-- A **lawful interpretation** of commands in a monoid `M`: what the merge rules assume about the
+meaning of the operation families.  `sem f [a, b] = f a * f b` is "`a` first, then `b`". -/
+structure Lawful {M : Type} [Monoid M] (f : Cmd → M) where
+  /-- values of the symbols (measured / free parameters) -/
+  θ : Nat → Rat
+  /-- gate families: class, targets, remaining parameters ↦ one-parameter group -/
+  G : String → List Nat → List Par → Rat → M
+  /-- channel families -/
+  C : String → List Nat → List Par → Rat → M
+  /-- matrix-parametrised families -/
+  D : String → List Nat → List Rat → M
+  /-- the meaning does not depend on the identity of the `Command` object -/
+  f_id : ∀ (c : Cmd) (i : Nat), f { c with id := i } = f c
+  /-- a gate is its family at the first parameter, negated when `dagger` is set -/
+  gate_f : ∀ (c : Cmd) (p : Par) (t : List Par), ruleOf c.cls = .gate → c.pars = p :: t →
+    f c = G c.cls c.regs t (sg c.dagger * p.val θ)
+  gate_add : ∀ k r t x y, G k r t (x + y) = G k r t x * G k r t y
+  gate_zero : ∀ k r t, G k r t 0 = 1
+  chan_f : ∀ (c : Cmd) (x : Rat) (t : List Par), ruleOf c.cls = .channel → c.pars = .num x :: t →
+    f c = C c.cls c.regs t x
+  /-- channels are multiplicative in the first parameter -/
+  chan_mul : ∀ k r t x y, C k r t (y * x) = C k r t x * C k r t y
+  chan_one : ∀ k r t, C k r t 1 = 1
+  mat_f : ∀ (c : Cmd) (A : List Rat), ruleOf c.cls = .matrix → parsNums c.pars = some A →
+    f c = D c.cls c.regs A
+  /-- first `A`, then `B` is the matrix product `B @ A` -/
+  mat_mul : ∀ k r (A B : List Rat), A.length = B.length →
+    D k r (matMul (Nat.sqrt A.length) B A) = D k r A * D k r B
+  mat_one : ∀ k r n, D k r (identMat n) = 1
+  /-- a preparation absorbs a preparation that precedes it on the same targets -/
+  prep_absorb : ∀ a b : Cmd, ruleOf a.cls = .prep → ruleOf b.cls = .prep → a.regs = b.regs →
+    a.deps = [] → b.deps = [] → f a * f b = f b
+  /-- a Fourier gate followed by its inverse is the identity -/
+  fourier_inv : ∀ a b : Cmd, ruleOf a.cls = .fourier → a.cls = b.cls → a.regs = b.regs →
+    a.dagger ≠ b.dagger → f a * f b = 1
+
+section LawfulProofs
+variable {M : Type} [Monoid M] {f : Cmd → M}
+
+/-- what a sound `merge` result has to satisfy -/
+def MergeSound (f : Cmd → M) (a b : Cmd) (r : MergeRes) : Prop :=
+  (r = .identity → f a * f b = 1) ∧
+  (∀ op, r = .merged op → op.deps = [] ∧ ∀ i, f a * f b = f { op with id := i, regs := a.regs })
+
+theorem gateMerge_sound (L : Lawful f) (a b : Cmd) (hr : a.regs = b.regs) (hda : a.deps = [])
+    (hrule : ruleOf a.cls = .gate) : MergeSound f a b (gateMerge a b) := by
+  unfold gateMerge
+  split
+  · exact ⟨by simp, by simp⟩
+  · rename_i hcls
+    simp only [ne_eq, not_not] at hcls
+    split
+    · rename_i pa ta pb tb hpa hpb
+      split
+      · rename_i htt
+        subst htt
+        have hfa := L.gate_f a pa ta hrule hpa
+        have hfb := L.gate_f b pb ta (hcls ▸ hrule) hpb
+        rw [← hcls, ← hr] at hfb
+        split
+        · rename_i p0 hadd
+          have hs := signed_sum L.θ a.dagger b.dagger pa pb p0 hadd
+          split
+          · rename_i h0
+            subst h0
+            refine ⟨fun _ => ?_, by simp⟩
+            rw [hfa, hfb, ← L.gate_add, ← hs]
+            simp [Par.val, L.gate_zero]
+          · refine ⟨by simp, ?_⟩
+            intro op hop
+            simp only [MergeRes.merged.injEq] at hop
+            subst hop
+            refine ⟨hda, fun i => ?_⟩
+            rw [L.gate_f { a with pars := p0 :: ta, id := i, regs := a.regs } p0 ta hrule rfl]
+            rw [hfa, hfb, ← L.gate_add, ← hs]
+        · exact ⟨by simp, by simp⟩
+      · exact ⟨by simp, by simp⟩
+    · exact ⟨by simp, by simp⟩
+
+theorem channelMerge_sound (L : Lawful f) (a b : Cmd) (hr : a.regs = b.regs) (hda : a.deps = [])
+    (hrule : ruleOf a.cls = .channel) : MergeSound f a b (channelMerge a b) := by
+  unfold channelMerge
+  split
+  · exact ⟨by simp, by simp⟩
+  · rename_i hcls
+    simp only [ne_eq, not_not] at hcls
+    split
+    · rename_i x ta y tb hpa hpb
+      split
+      · rename_i htt
+        subst htt
+        have hfa := L.chan_f a x ta hrule hpa
+        have hfb := L.chan_f b y ta (hcls ▸ hrule) hpb
+        rw [← hcls, ← hr] at hfb
+        split
+        · rename_i h1
+          refine ⟨fun _ => ?_, by simp⟩
+          rw [hfa, hfb, ← L.chan_mul, h1, L.chan_one]
+        · refine ⟨by simp, ?_⟩
+          intro op hop
+          simp only [MergeRes.merged.injEq] at hop
+          subst hop
+          refine ⟨hda, fun i => ?_⟩
+          rw [L.chan_f { a with pars := .num (y * x) :: ta, id := i, regs := a.regs } (y * x) ta hrule rfl]
+          rw [hfa, hfb, ← L.chan_mul]
+      · exact ⟨by simp, by simp⟩
+    · exact ⟨by simp, by simp⟩
+
+theorem mat_f' (L : Lawful f) (a : Cmd) (U : List Rat) (i : Nat) (hrule : ruleOf a.cls = .matrix) :
+    f { a with pars := U.map Par.num, id := i, regs := a.regs } = L.D a.cls a.regs U :=
+  L.mat_f _ U hrule (parsNums_map_num U)
+
+theorem matrixMerge_sound (L : Lawful f) (a b : Cmd) (hr : a.regs = b.regs) (hda : a.deps = [])
+    (hrule : ruleOf a.cls = .matrix) : MergeSound f a b (matrixMerge a b) := by
+  unfold matrixMerge
+  split
+  · exact ⟨by simp, by simp⟩
+  · rename_i hcls
+    simp only [ne_eq, not_not] at hcls
+    split
+    · rename_i A B hA hB
+      have hfa := L.mat_f a A hrule hA
+      have hfb := L.mat_f b B (hcls ▸ hrule) hB
+      rw [← hcls, ← hr] at hfb
+      split
+      · exact ⟨by simp, by simp⟩
+      · rename_i hlen
+        simp only [ne_eq, not_not] at hlen
+        simp only
+        split
+        · rename_i hU
+          refine ⟨fun _ => ?_, by simp⟩
+          rw [hfa, hfb, ← L.mat_mul _ _ A B hlen, hU, L.mat_one]
+        · refine ⟨by simp, ?_⟩
+          intro op hop
+          simp only [MergeRes.merged.injEq] at hop
+          subst hop
+          refine ⟨hda, fun i => ?_⟩
+          rw [mat_f' L a _ i hrule]
+          rw [hfa, hfb, ← L.mat_mul _ _ A B hlen]
+    · exact ⟨by simp, by simp⟩
+
+theorem prepMerge_sound (L : Lawful f) (a b : Cmd) (hr : a.regs = b.regs) (hda : a.deps = [])
+    (hdb : b.deps = []) (hrule : ruleOf a.cls = .prep) : MergeSound f a b (prepMerge a b) := by
+  unfold prepMerge
+  split
+  · rename_i hb
+    refine ⟨by simp, ?_⟩
+    intro op hop
+    simp only [MergeRes.merged.injEq] at hop
+    subst hop
+    refine ⟨hdb, fun i => ?_⟩
+    have : ({ b with id := i, regs := a.regs } : Cmd) = { b with id := i } := by rw [hr]
+    rw [this, L.f_id b i]
+    exact L.prep_absorb a b hrule hb hr hda hdb
+  · exact ⟨by simp, by simp⟩
+
+theorem fourierMerge_sound (L : Lawful f) (a b : Cmd) (hr : a.regs = b.regs)
+    (hrule : ruleOf a.cls = .fourier) : MergeSound f a b (fourierMerge a b) := by
+  unfold fourierMerge
+  split
+  · exact ⟨by simp, by simp⟩
+  · rename_i hcls
+    simp only [ne_eq, not_not] at hcls
+    split
+    · rename_i hd
+      exact ⟨fun _ => L.fourier_inv a b hrule hcls hr hd, by simp⟩
+    · exact ⟨by simp, by simp⟩
+
+/-- every merge rule is sound for a lawful interpretation -/
+theorem opMerge_sound (L : Lawful f) (a b : Cmd) (hr : a.regs = b.regs) (hda : a.deps = [])
+    (hdb : b.deps = []) : MergeSound f a b (opMerge a b) := by
+  unfold opMerge
+  cases hrule : ruleOf a.cls with
+  | gate => exact gateMerge_sound L a b hr hda hrule
+  | channel => exact channelMerge_sound L a b hr hda hrule
+  | matrix => exact matrixMerge_sound L a b hr hda hrule
+  | prep => exact prepMerge_sound L a b hr hda hdb hrule
+  | fourier => exact fourierMerge_sound L a b hr hrule
+  | never => exact ⟨by simp, by simp⟩
+
+/-- well-formedness of a command: an operation with `ns = 1` has exactly one target (enforced by
+`Operation.__or__`), and every command touches at least one subsystem -/
+def WFc (c : Cmd) : Prop := (nsOf c = some 1 → c.regs.length = 1) ∧ c.wires ≠ []
+
+theorem single_wire {c : Cmd} (hP : WFc c) (hns : nsOf c = some 1) (hd : c.deps = []) :
+    ∃ w, c.regs = [w] ∧ c.wires = [w] := by
+  obtain ⟨w, hw⟩ := List.length_eq_one_iff.1 (hP.1 hns)
+  exact ⟨w, hw, by simp [Cmd.wires, hw, hd]⟩
+
+/-- the body of the loop of `optimize_circuit` is sound for every lawful interpretation -/
+theorem tryMerge_ok (L : Lawful f) (B : Nat) : TryOK f WFc (tryMerge B) := by
+  have key : ∀ a b, WFc a → WFc b → ∀ s, tryMerge B a b = s → s ≠ .advance →
+      ∃ w, a.regs = [w] ∧ a.wires = [w] ∧ b.wires = [w] ∧ MergeSound f a b (opMerge a b) ∧
+        ((s = .identity ∧ opMerge a b = .identity) ∨
+         (∃ op, opMerge a b = .merged op ∧ s = .merged { op with id := a.id + B, regs := a.regs })) := by
+    intro a b hPa hPb s hs hne
+    unfold tryMerge at hs
+    split at hs
+    · rename_i h1
+      split at hs
+      · exact absurd hs.symm hne
+      · rename_i h2
+        simp only [not_or, ne_eq, not_not] at h2
+        obtain ⟨hns, hda, hdb⟩ := h2
+        obtain ⟨w, hrw, hww⟩ := single_wire hPa hns hda
+        obtain ⟨w', hrw', hww'⟩ := single_wire hPb (h1.1 ▸ hns) hdb
+        have : w' = w := by
+          have := h1.2; rw [hrw, hrw'] at this; simpa using this.symm
+        subst this
+        refine ⟨w', hrw, hww, hww', opMerge_sound L a b h1.2 hda hdb, ?_⟩
+        cases hm : opMerge a b with
+        | fail => rw [hm] at hs; exact absurd hs.symm hne
+        | identity => rw [hm] at hs; exact Or.inl ⟨hs.symm, rfl⟩
+        | merged op => rw [hm] at hs; exact Or.inr ⟨op, rfl, hs.symm⟩
+    · exact absurd hs.symm hne
+  constructor
+  · intro a b hPa hPb ht
+    obtain ⟨w, _, hww, hwb, hsound, h⟩ := key a b hPa hPb _ ht (by simp)
+    refine ⟨w, hww, hwb, ?_⟩
+    rcases h with ⟨_, hm⟩ | ⟨op, _, hs⟩
+    · exact hsound.1 hm
+    · cases hs
+  · intro a b m hPa hPb ht
+    obtain ⟨w, hrw, hww, hwb, hsound, h⟩ := key a b hPa hPb _ ht (by simp)
+    rcases h with ⟨hs, _⟩ | ⟨op, hm, hs⟩
+    · cases hs
+    · simp only [Step.merged.injEq] at hs
+      obtain ⟨hdeps, hf⟩ := hsound.2 op hm
+      have hmw : m.wires = [w] := by
+        subst hs
+        simp [Cmd.wires, hrw, hdeps]
+      refine ⟨w, hww, hwb, hmw, ⟨?_, by rw [hmw]; simp⟩, ?_⟩
+      · intro _
+        subst hs
+        simp [hrw]
+      · rw [hs]; exact hf _
+
+end LawfulProofs
+end SFV
